@@ -71,7 +71,9 @@ func MultiBucket(fs afero.Fs, opts ...MultiOption) (*MultiBucketBackend, error) 
 		}
 		b.configOnly.metaFs = metaFs
 	}
-	b.metaStore = newMetaStore(b.configOnly.metaFs, modTimeFsCalc(fs))
+	b.metaStore = newMetaStore(b.configOnly.metaFs, modTimeFsCalc(fs), func(bucket, object string) (afero.Fs, string) {
+		return bucketsFs, path.Join(bucket, object)
+	})
 
 	return b, nil
 }
@@ -161,6 +163,9 @@ func (db *MultiBucketBackend) getBucketWithFilePrefixLocked(bucket string, prefi
 
 	for _, entry := range dirEntries {
 		object := entry.Name()
+		if isUploadTemp(object) {
+			continue
+		}
 
 		// Expected use of 'path'; see the "Path Handling" subheading in doc.go:
 		objectPath := path.Join(prefixPath, object)
@@ -206,7 +211,7 @@ func (db *MultiBucketBackend) getBucketWithArbitraryPrefixLocked(bucket string, 
 	response := gofakes3.NewObjectList()
 
 	if err := afero.Walk(db.bucketFs, filepath.FromSlash(bucket), func(path string, info os.FileInfo, err error) error {
-		if err != nil || info.IsDir() {
+		if err != nil || info.IsDir() || isUploadTemp(path) {
 			return err
 		}
 
